@@ -229,3 +229,54 @@ func VerifH_C11_StringToken() {
 		verifAssert(u.Type == typeString && u.Value == t.Value, "quote-character-irrelevant")
 	}
 }
+
+// VerifH_C17_RegexToken: a regex literal /body/flags becomes the token "(?flags)body"; bracket depth
+// and \/ are honoured; an unterminated literal is an error token.
+func VerifH_C17_RegexToken() {
+	body := verifString(verifParam("N", 3))
+	flags := verifString(verifParam("F", 2))
+	// reference scan of the body: no unescaped '/' at depth 0, no newline, escapes take one char
+	depth := 0
+	ok := true
+	for i := 0; i < len(body); i++ {
+		switch body[i] {
+		case '\\':
+			i++
+			if i >= len(body) || body[i] == '\n' {
+				ok = false
+			}
+			if i >= len(body) {
+				i = len(body) - 1
+			}
+		case '(', '[', '{':
+			depth++
+		case ')', ']', '}':
+			depth--
+		case '/':
+			if depth == 0 {
+				ok = false
+			}
+		case '\n':
+			ok = false
+		}
+		if body[i] >= 0x80 {
+			ok = false // keep to ASCII bodies
+		}
+		if !ok {
+			break
+		}
+	}
+	verifAssume(ok && depth == 0)
+	for i := 0; i < len(flags); i++ {
+		verifAssume(flags[i] == 'i' || flags[i] == 'm' || flags[i] == 's')
+	}
+	l := newLexer("/" + body + "/" + flags)
+	t := l.next(true)
+	verifAssert(t.Type == typeRegex, "regex-token")
+	want := body
+	if flags != "" {
+		want = "(?" + flags + ")" + body
+	}
+	verifAssert(t.Value == want, "regex-token-value")
+	verifAssert(l.next(true).Type == typeEOF, "regex-token-consumes-literal")
+}
